@@ -39,8 +39,11 @@ Print Assumptions C02_effect_never_grants_owner.
        sender does not hold -admin, a default anticapability: C02_admin_gate), <n> resolves to account z,
        c = toLower(craw) is a single token, is not owner, and is an anticapability or a capability
        ircdb.checkCapability(sender, c) answers True for ("capabilities you don't have" as implemented), or
-     - `channel capability add <ch> <n> <craw>`, not ignored, past the gate, ch a channel name for which
-       checkCapability(sender, "<ch>,op") is True, <n> resolves to z and c = toLower("<ch>,<word of craw>"). *)
+     - `channel capability add [<ch>] <n> <craw>`, not ignored, past the gate, where ch is the first argument if that is
+       a channel name and otherwise the channel the message was said in, checkCapability(sender, "<ch>,op") is True,
+       <n> resolves to z and c = toLower("<ch>,<word of craw>").
+   Messages said in a channel are covered (e_chan E): the gate then also consults the channel's anticapabilities and
+   defaultAllow, the User commands that require privacy refuse, and the channel argument may be left out. *)
 Theorem C02_grow_only_entitled :
   forall ops s, Forall no_reload ops ->
   forall a' c, In a' (s_users (run_ops s ops)) -> C03.Model.smem c (caps a') = true ->
@@ -82,13 +85,17 @@ Qed.
 Print Assumptions C02_grow_only_entitled_oracle.
 
 (* a channel op only ever grants capabilities of the channel whose "<ch>,op" was verified for him: whenever a
-   `channel capability add <ch> ...` message makes a capability c appear, c splits at its first comma into
-   (toLower ch, toLower w) — in particular `... add #a <user> #b,op` can only yield "#a,#b,op", never "#b,op" *)
+   `channel capability add ...` message makes a capability c appear, the 'op' converter picked a channel ch -- the first
+   argument if that is a channel name, else the channel the message was said in --, checkCapability(sender, "<ch>,op")
+   is True, and c splits at its first comma into (toLower ch, toLower w): `... add #a <user> #b,op` can only yield
+   "#a,#b,op", never "#b,op" *)
 Theorem C02_chanop_scope :
   forall s E text rest a' c,
   tokens text = Some (chan_add_words ++ rest) ->
   In a' (s_users (step s (OCmd E text))) -> C03.Model.smem c (caps a') = true -> ~ had (s_users s) (aid a') c ->
-  exists ch w r, rest = ch :: r /\ C03.Model.isChannel ch = true /\ check s E (ch ++ [COMMA] ++ OP) = Ok true /\
+  exists ch w r, conv_op s E rest = Some (ch, r) /\
+                 (rest = ch :: r \/ (e_chan E = Some ch /\ rest = r)) /\
+                 C03.Model.isChannel ch = true /\ check s E (ch ++ [COMMA] ++ OP) = Ok true /\
                  C03.Model.split_comma c = Some (C03.Model.fold ch, C03.Model.fold w).
 Proof.
   intros s E text rest a' c Ht H1 H2 Hn.
